@@ -268,7 +268,15 @@ def run_case(case, res):
     if lab == "clones" and clabs is None:
         lab = "uniq"
 
+    typed = bool(case.get("typed"))
+
     def fresh():
+        if typed:
+            from nutree.typed_tree import TypedTree
+
+            t = TypedTree("t")
+            nodes = gen.build(t, f, lambda i: f"n{i}", kind=lambda i: "ka" if (i * 7 + i // 2) % 3 else "kb")
+            return t, nodes, {id(nd): i for i, nd in enumerate(nodes)}
         t = Tree("t")
         if lab == "eqsib":
             nodes = gen.build(t, f, lambda i: "x", data_id=lambda i: f"id{i}")
@@ -332,6 +340,8 @@ def run_case(case, res):
                             bad.append("filter() on a branch changed nodes outside the branch")
             # ---------------- copying forms ------------------------------------
             forms = ["filtered", "copy"] if start == -1 else ["filtered", "copy_self", "copy_noself"]
+            if typed:
+                forms = []  # typed copies are C07's subject (kind of the copied top node); the in-place form is checked here
             for which in forms:
                 t, nodes, idx_of = fresh()
                 calls = []
@@ -435,6 +445,8 @@ def run_shard(spec, res):
                     for form in forms:
                         for s in starts:
                             run_case({"f": fc, "assign": assign, "form": form, "start": s}, res)
+                    if n >= 2 and (k // NSHARDS) % 3 == 0:
+                        run_case({"f": fc, "assign": assign, "form": forms[0], "start": starts[0], "typed": True}, res)
                     if n >= 2:
                         lab = ["eqsib", "clones"][(k // NSHARDS) % 2]
                         run_case({"f": fc, "assign": assign, "form": forms[0], "start": starts[0], "lab": lab, "lseed": k}, res)
@@ -451,7 +463,7 @@ def run_shard(spec, res):
             assign = "".join(rng.choices(V, weights=w, k=n))
             run_case({"f": gen.code(f), "assign": assign, "form": rng.choice(["ret", "raise", "stopiter"]),
                       "start": rng.choice([-1, -1, rng.randrange(n)]), "lab": rng.choice(["uniq", "eqsib", "clones"]),
-                      "lseed": rng.randrange(10**6)}, res)
+                      "lseed": rng.randrange(10**6), "typed": rng.random() < 0.25}, res)
             if res.expired():
                 break
 
